@@ -12,6 +12,7 @@ import (
 	"net/http"
 	"net/url"
 	"os"
+	"sort"
 	"strings"
 	"testing"
 	"time"
@@ -30,10 +31,14 @@ type c01Capture struct {
 	attempts []string
 	fail     int  // answer 503 to this many further attempts (drives the retry path)
 	maskCT   bool // drop a sniffed / marshaller-chosen Content-Type from the rendering
+	sawUser  bool // some attempt's URL carried userinfo (net/http turns it into an Authorization header)
 }
 
 func (c *c01Capture) RoundTrip(r *http.Request) (*http.Response, error) {
 	c.req = r
+	if r.URL != nil && r.URL.User != nil {
+		c.sawUser = true
+	}
 	c.had = r.Body != nil
 	c.body = nil
 	if r.Body != nil {
@@ -89,6 +94,161 @@ type c01PipeCase struct {
 	retries    int  // the first `retries` attempts get a 503 and are retried (same *Request)
 	sendAgain  bool // the same *Request is sent a second time after the first Send returned
 	viaSetters bool // headers registered through SetHeader / SetHeaderNonCanonical / SetCommonHeader… instead of assigned maps
+	// round 6 — the description of the SAME *Request is changed between two transmissions (by a
+	// retry hook before the second attempt, or by the caller before the second Send): `edit` names
+	// the field families changed, `after` is the description that holds from then on
+	edit  string
+	after *c01PipeCase
+}
+
+// c01GenPipeEdit draws the edit: one or two field families of {request path values, client path
+// values, request query, client query, the whole URL description (template, base URL, scheme and
+// all maps), a request header, a request cookie, the body, the method (second Send only)}.
+func c01GenPipeEdit(r *rand.Rand, tc *c01PipeCase) {
+	a := *tc
+	a.edit, a.after = "", nil
+	fams := []string{"rpath", "rpath", "cpath", "rquery", "cquery", "url", "header", "cookie", "body"}
+	if tc.sendAgain {
+		fams = append(fams, "method")
+	}
+	picked := map[string]bool{}
+	for i, n := 0, 1+r.Intn(2); i < n; i++ {
+		picked[verifh.Pick(r, fams)] = true
+	}
+	newVals := func(m map[string]string) map[string]string {
+		out := map[string]string{}
+		for k := range m {
+			out[k] = c01RandValue(r)
+		}
+		return out
+	}
+	if picked["rpath"] && len(tc.u.rPath) == 0 {
+		delete(picked, "rpath")
+		picked["rquery"] = true
+	}
+	if picked["cpath"] && len(tc.u.cPath) == 0 {
+		delete(picked, "cpath")
+		picked["cquery"] = true
+	}
+	if picked["body"] && tc.bodyKind != "bytes" && tc.bodyKind != "string" && tc.bodyKind != "func" {
+		delete(picked, "body")
+		picked["header"] = true
+	}
+	if picked["method"] && (tc.method == "HEAD" || tc.method == "OPTIONS" || (tc.method == "GET" && !tc.allowGet)) {
+		// a method that forbids a payload makes parseRequestBody CLEAR the body of the Request for
+		// good: the description itself changed in the first send — not this dimension's subject
+		delete(picked, "method")
+		picked["header"] = true
+	}
+	if picked["url"] {
+		if r.Intn(8) == 0 {
+			a.u = c01GenWild(r)
+		} else {
+			a.u = c01GenStructured(r)
+		}
+		delete(picked, "rpath")
+		delete(picked, "cpath")
+		delete(picked, "rquery")
+		delete(picked, "cquery")
+	}
+	a.u.structured = false
+	if picked["rpath"] {
+		a.u.rPath = newVals(tc.u.rPath)
+	}
+	if picked["cpath"] {
+		a.u.cPath = newVals(tc.u.cPath)
+	}
+	if picked["rquery"] {
+		a.u.rQuery = c01RandQMap(r, 3)
+	}
+	if picked["cquery"] {
+		a.u.cQuery = c01RandQMap(r, 3)
+	}
+	if picked["header"] {
+		a.rHdr = tc.rHdr.Clone()
+		if a.rHdr == nil {
+			a.rHdr = http.Header{}
+		}
+		k := verifh.Pick(r, []string{"X-Edit", "X-A", "x-a", "Accept", "Cookie"})
+		if r.Intn(3) == 0 {
+			a.rHdr[k] = verifh.C01GenLines(r, k, []string{"edited", "second try", "v2", ""})
+		} else {
+			a.rHdr[k] = []string{verifh.Pick(r, []string{"edited", "second try", "v2"})}
+		}
+	}
+	if picked["cookie"] {
+		a.rCk = append(append([]*http.Cookie(nil), tc.rCk...), &http.Cookie{Name: "edit", Value: verifh.Pick(r, []string{"e1", "a b", "x;y"})})
+	}
+	if picked["body"] {
+		a.bodyKind = "bytes"
+		a.body = c01GenBody(verifh.Pick(r, []int{0, 1, 100, 4097}), 1+r.Intn(250), r.Intn(251))
+	}
+	if picked["method"] {
+		a.method = verifh.Pick(r, []string{"GET", "POST", "PUT", "DELETE", "HEAD", "QUERY"})
+	}
+	var names []string
+	for f := range picked {
+		names = append(names, f)
+	}
+	sort.Strings(names)
+	a.edit = strings.Join(names, "+")
+	tc.edit, tc.after = a.edit, &a
+}
+
+// c01PipeLine: the model line of ONE transmission — a function of the description current at that
+// moment only. `carried` = a retry (RetryAttempt > 0): Request.Cookies already holds the client
+// cookies of the first attempt and parseRequestCookie does not add them again.
+func c01PipeLine(tc *c01PipeCase, first *c01PipeCase, carried bool) string {
+	modelKind := tc.bodyKind
+	switch tc.bodyKind {
+	case "string", "json":
+		modelKind = "bytes"
+	}
+	rck, cck := tc.rCk, tc.cCk
+	if carried {
+		// Request.Cookies = (request cookies ++ client cookies of attempt 1) ++ what was appended since
+		rck = append(append(append([]*http.Cookie(nil), first.rCk...), first.cCk...), tc.rCk[len(first.rCk):]...)
+		cck = nil
+	}
+	return "c01pipe " + verifh.Hex(tc.method) + " " + verifh.Hex(tc.u.rawURL) + " " + c01PMap(tc.u.rPath) + " " + c01PMap(tc.u.cPath) + " " +
+		verifh.Hex(tc.u.scheme) + " " + verifh.Hex(tc.u.base) + " " + c01QMap(tc.u.cQuery) + " " + c01QMap(tc.u.rQuery) + " " +
+		func() string {
+			if tc.cHdr == nil {
+				return "nil"
+			}
+			return c01Hdr(tc.cHdr)
+		}() + " " + c01Hdr(tc.rHdr) + " " + c01Cookies(cck) + " " + c01Cookies(rck) + " " + modelKind + " " + verifh.Hex(string(tc.body)) + " " + c01b(tc.allowGet)
+}
+
+// c01PipeApplyEdit performs the edit on the live objects through the public setters / fields.
+func c01PipeApplyEdit(c *Client, req *Request, tc *c01PipeCase) {
+	a := tc.after
+	for _, f := range strings.Split(tc.edit, "+") {
+		switch f {
+		case "rpath":
+			req.PathParams = a.u.rPath
+		case "cpath":
+			c.PathParams = a.u.cPath
+		case "rquery":
+			req.QueryParams = a.u.rQuery
+		case "cquery":
+			c.QueryParams = a.u.cQuery
+		case "url":
+			c.PathParams, c.QueryParams, c.BaseURL, c.scheme = a.u.cPath, a.u.cQuery, a.u.base, a.u.scheme
+			req.PathParams, req.QueryParams = a.u.rPath, a.u.rQuery
+			req.SetURL(a.u.rawURL)
+		case "header":
+			for k, vs := range a.rHdr {
+				if fmt.Sprint(vs) != fmt.Sprint(tc.rHdr[k]) || len(vs) != len(tc.rHdr[k]) {
+					req.Headers[k] = append([]string(nil), vs...)
+				}
+			}
+		case "cookie":
+			req.SetCookies(a.rCk[len(a.rCk)-1])
+		case "body":
+			req.SetBodyBytes(a.body)
+		}
+	}
 }
 
 func c01GenPipe(r *rand.Rand, profile string) *c01PipeCase {
@@ -104,8 +264,9 @@ func c01GenPipe(r *rand.Rand, profile string) *c01PipeCase {
 		if h != nil && r.Intn(4) == 0 {
 			h[verifh.Pick(r, []string{"Host", "host", "Cookie", "cookie", "Content-Type", "content-type", "User-Agent"})] = []string{verifh.Pick(r, []string{"v.example", "a=1", "text/plain", "", "x y"})}
 		}
-		if h != nil && r.Intn(6) == 0 {
-			h["Cookie"] = []string{"pre=1", "second=2"}
+		if h != nil && r.Intn(16) == 0 {
+			// (kept rarer since round 6: with cookie objects this is the input class of finding C01-4)
+			h["Cookie"] = verifh.C01GenLines(r, "Cookie", nil)
 		}
 		// an empty Content-Type counts as absent for the sniffing step (masked below): keep it non-empty
 		if vs, ok := h["Content-Type"]; ok && (len(vs) == 0 || vs[0] == "") {
@@ -193,6 +354,9 @@ func c01GenPipe(r *rand.Rand, profile string) *c01PipeCase {
 		// once more (that is how parseRequestCookie is specified); only retries keep them single
 		tc.sendAgain, tc.retries = false, 1
 	}
+	if (tc.sendAgain || tc.retries > 0) && r.Intn(3) != 0 {
+		c01GenPipeEdit(r, tc)
+	}
 	return tc
 }
 
@@ -228,7 +392,7 @@ func TestVerif_C01_pipeline(t *testing.T) {
 	s := c01New(t, "C01", "pipeline",
 		"API-level request specs: method; URL/base URL/scheme/path maps/query maps from the url lane's generators; client-level headers (nil, empty, 0..6 keys) and request-level headers with overlapping keys in the same (canonical or non-canonical) and in another spelling, no value, the empty string, several values, Host / Cookie / Content-Type entries, assigned as maps or registered through the setters; 0..3 client and request cookies with names and values holding spaces, commas, semicolons, quotes, CR/LF, non-ASCII; body none / bytes / string / io.Reader / GetBody func / marshalled map, sizes 0..64 KiB; AllowGetMethodPayload on/off; a fifth of the requests is RETRIED once or twice (first attempts answered 503) and a fifth is SENT A SECOND TIME through the same *Request: every attempt must be the request the model describes; captured: the *http.Request of every attempt (method, URL, Host, header map, ContentLength, body bytes); non-trivial = request reached the transport")
 	c01LanePipe(t, s, "plain", verifh.N(4000, 100000))
-	s.Need(t, "sent", "err", "cookies", "body:none", "body:bytes", "body:string", "body:reader", "body:func", "body:json", "attempt:2", "attempt:3", "second-send", "via-setters")
+	s.Need(t, "sent", "err", "cookies", "body:none", "body:bytes", "body:string", "body:reader", "body:func", "body:json", "attempt:2", "attempt:3", "second-send", "via-setters", "edited-transmission", "resend-sequence", "edit:rpath", "edit:cpath", "edit:rquery", "edit:cquery", "edit:url", "edit:header", "edit:cookie", "edit:body", "edit:method")
 	s.Finish()
 }
 
@@ -292,6 +456,10 @@ func c01LanePipe(t *testing.T, s *c01Sess, profile string, n int) {
 			tc.body, _ = json.Marshal(v)
 			req.SetBody(v)
 		}
+		_ = modelKind
+		if tc.after != nil && !strings.Contains("+"+tc.edit+"+", "+body+") {
+			tc.after.body = tc.body // (the json kind re-marshals its bytes above)
+		}
 		// an in-memory body without any Content-Type gets one from content sniffing / the marshaller
 		// (C17's subject): mask that header on both sides
 		hadCT := (tc.cHdr != nil && tc.cHdr.Get("Content-Type") != "") || (tc.rHdr != nil && tc.rHdr.Get("Content-Type") != "")
@@ -301,15 +469,39 @@ func c01LanePipe(t *testing.T, s *c01Sess, profile string, n int) {
 			req.SetRetryCount(tc.retries).
 				SetRetryInterval(func(*Response, int) time.Duration { return 0 }).
 				SetRetryCondition(func(resp *Response, err error) bool { return err == nil && resp != nil && resp.StatusCode == 503 })
+			if tc.after != nil {
+				edited := false
+				req.SetRetryHook(func(resp *Response, _ error) {
+					if !edited {
+						edited = true
+						c01PipeApplyEdit(c, resp.Request, tc)
+					}
+				})
+			}
+		}
+		editHuman := ""
+		if a := tc.after; a != nil {
+			s.Count("edited")
+			for _, f := range strings.Split(tc.edit, "+") {
+				s.Count("edit:" + f)
+			}
+			editHuman = fmt.Sprintf(" THEN EDITED (%s) before the next transmission: %q url=%q rpath=%q cpath=%q scheme=%q base=%q cq=%q rq=%q rhdr=%q rck=%s body=%s/%d", tc.edit,
+				a.method, a.u.rawURL, a.u.rPath, a.u.cPath, a.u.scheme, a.u.base, a.u.cQuery, a.u.rQuery, a.rHdr, c01Cookies(a.rCk), a.bodyKind, len(a.body))
 		}
 		human := fmt.Sprintf("%q url=%q rpath=%q cpath=%q scheme=%q base=%q cq=%q rq=%q chdr=%q rhdr=%q setters=%v cck=%s rck=%s body=%s/%d allowGet=%v retries=%d again=%v",
-			tc.method, tc.u.rawURL, tc.u.rPath, tc.u.cPath, tc.u.scheme, tc.u.base, tc.u.cQuery, tc.u.rQuery, tc.cHdr, tc.rHdr, viaSetters, c01Cookies(tc.cCk), c01Cookies(tc.rCk), tc.bodyKind, len(tc.body), tc.allowGet, tc.retries, tc.sendAgain)
+			tc.method, tc.u.rawURL, tc.u.rPath, tc.u.cPath, tc.u.scheme, tc.u.base, tc.u.cQuery, tc.u.rQuery, tc.cHdr, tc.rHdr, viaSetters, c01Cookies(tc.cCk), c01Cookies(tc.rCk), tc.bodyKind, len(tc.body), tc.allowGet, tc.retries, tc.sendAgain) + editHuman
 		s.Begin(fmt.Sprintf("pipe-%d", i), human)
 		var err error
 		p, bad := verifh.Safely(func() {
 			_, err = req.Send(tc.method, tc.u.rawURL)
 			if err == nil && tc.sendAgain {
-				_, err = req.Send(tc.method, tc.u.rawURL)
+				if tc.after != nil {
+					// the caller changes the description of the same *Request, then sends it again
+					c01PipeApplyEdit(c, req, tc)
+					_, err = req.Send(tc.after.method, tc.after.u.rawURL)
+				} else {
+					_, err = req.Send(tc.method, tc.u.rawURL)
+				}
 			}
 		})
 		if bad {
@@ -317,12 +509,12 @@ func c01LanePipe(t *testing.T, s *c01Sess, profile string, n int) {
 			continue
 		}
 		class := ""
-		if err == nil && capt.req != nil && capt.req.URL.User != nil {
+		if capt.sawUser || (err == nil && capt.req != nil && capt.req.URL.User != nil) {
 			// net/http.Client.Do turns URL userinfo into an Authorization header (base64: external)
 			s.Count("skipped:userinfo")
 			continue
 		}
-		if c01RawPathDropped(tc.u, req, err) {
+		if c01RawPathDropped(tc.u, req, err) || (tc.after != nil && c01RawPathDropped(tc.after.u, req, err)) {
 			class = "rawpath-dropped"
 		}
 		if tc.bodyKind == "reader" {
@@ -330,18 +522,34 @@ func c01LanePipe(t *testing.T, s *c01Sess, profile string, n int) {
 			// hands out the same reader again (the model follows the repaired Client.roundTrip)
 			class = "oneshot-body-replayed"
 		}
-		// the model gets the marshalled bytes as an in-memory body, and the masked Content-Type
-		line := "c01pipe " + verifh.Hex(tc.method) + " " + verifh.Hex(tc.u.rawURL) + " " + c01PMap(tc.u.rPath) + " " + c01PMap(tc.u.cPath) + " " +
-			verifh.Hex(tc.u.scheme) + " " + verifh.Hex(tc.u.base) + " " + c01QMap(tc.u.cQuery) + " " + c01QMap(tc.u.rQuery) + " " +
-			func() string {
-				if tc.cHdr == nil {
-					return "nil"
-				}
-				return c01Hdr(tc.cHdr)
-			}() + " " + c01Hdr(tc.rHdr) + " " + c01Cookies(tc.cCk) + " " + c01Cookies(tc.rCk) + " " + modelKind + " " + verifh.Hex(string(tc.body)) + " " + c01b(tc.allowGet)
+		// known finding C01-4 (fixes/C01-4): several field lines under "Cookie" + cookie objects —
+		// http.Request.AddCookie rewrites the field from its first line (the model folds the lines)
+		for _, d := range []*c01PipeCase{tc, tc.after} {
+			if d == nil {
+				continue
+			}
+			lines := d.rHdr["Cookie"]
+			if len(lines) == 0 && d.cHdr != nil {
+				lines = d.cHdr["Cookie"]
+			}
+			if len(lines) > 1 && len(d.rCk)+len(tc.cCk) > 0 {
+				class = "cookie-lines-folded"
+				s.Count("class:cookie-lines-folded")
+			}
+		}
+		// the model gets the marshalled bytes as an in-memory body, and the masked Content-Type;
+		// ONE line per description: what holds at the first transmission, what holds after the edit
+		line := c01PipeLine(tc, tc, false)
 		if err != nil || len(capt.attempts) == 0 {
 			s.Count("err")
-			s.Case(line, "err", true, class, false, human)
+			if tc.after != nil && len(capt.attempts) == 1 {
+				// the first transmission went out; the one after the edit was refused
+				s.Case(line, capt.attempts[0], true, class, false, "attempt 1 (the transmission after the edit failed): "+human)
+				s.Case(c01PipeLine(tc.after, tc, tc.retries > 0), "err", true, class, false, "transmission after the edit: "+human)
+				s.Count("edited-transmission-err")
+			} else {
+				s.Case(line, "err", true, class, false, human)
+			}
 			continue
 		}
 		s.Count("sent")
@@ -362,7 +570,21 @@ func c01LanePipe(t *testing.T, s *c01Sess, profile string, n int) {
 			if k > 0 {
 				s.Count(fmt.Sprintf("attempt:%d", k+1))
 			}
-			s.Case(line, a, true, class, k == 0, fmt.Sprintf("attempt %d of %d: %s", k+1, len(capt.attempts), human))
+			l := line
+			if k > 0 && tc.after != nil {
+				// resend_reflects_current_description: the transmission after the edit is judged
+				// against the model of the CURRENT description (a retry carries Request.Cookies over)
+				l = c01PipeLine(tc.after, tc, tc.retries > 0)
+				s.Count("edited-transmission")
+			}
+			s.Case(l, a, true, class, k == 0, fmt.Sprintf("attempt %d of %d: %s", k+1, len(capt.attempts), human))
+		}
+		// the whole SEQUENCE against the state machine of the model (ResendEdit.run: what each pass
+		// writes into Request.Headers / Request.Cookies is carried to the next one by the MODEL)
+		if tc.after != nil && len(capt.attempts) == wantAttempts {
+			s.Count("resend-sequence")
+			s.Case(fmt.Sprintf("c01resend %d ", tc.retries)+strings.TrimPrefix(line, "c01pipe ")+" "+strings.TrimPrefix(c01PipeLine(tc.after, tc, false), "c01pipe "),
+				strings.Join(capt.attempts, " | "), true, class, true, "sequence send, edit, "+fmt.Sprintf("%d retries (0 = second send): ", tc.retries)+human)
 		}
 	}
 }
